@@ -476,11 +476,23 @@ class Run:
                     nh += 1
         if nh == 0:
             raise ToolError("leg %s: TLC printed no behaviour" % name)
-        out = os.path.join(self.work, name + ".ndjson")
-        lc3v(["replay", domain, "hist=" + hist, "ops=" + ops], out, self.seed, self.tier)
-        res = self.rec_leg(name, ["replay", domain], spec=spec, cfg=cfg, verdict=verdict, workers=workers, timeout=timeout, path=out)
-        self.legs[-1].update({"kind": "RP (TLC-enumerated behaviours given to the implementation, then TV)",
-                              "behaviours": nh, "wall_s": round(time.time() - t0, 2)})
+        # large enumerations are validated in parts (TLC reads a whole record file into memory)
+        lines = open(hist).read().splitlines()
+        part = 12000
+        res = None
+        for k in range(0, len(lines), part):
+            sub = name if len(lines) <= part else "%s_%d" % (name, k // part + 1)
+            hp = os.path.join(self.work, sub + ".hist")
+            if hp != hist:
+                with open(hp, "w") as f:
+                    f.write("\n".join(lines[k:k + part]) + "\n")
+            out = os.path.join(self.work, sub + ".ndjson")
+            lc3v(["replay", domain, "hist=" + hp, "ops=" + ops], out, self.seed, self.tier)
+            res = self.rec_leg(sub, ["replay", domain], spec=spec, cfg=cfg, verdict=verdict, workers=workers, timeout=timeout, path=out)
+            self.legs[-1].update({"kind": "RP (TLC-enumerated behaviours given to the implementation, then TV)",
+                                  "behaviours": len(lines[k:k + part]), "wall_s": round(time.time() - t0, 2)})
+            if hp != hist and not self.violations:
+                os.remove(out)
         return res
 
     def mc_leg(self, name, spec, cfg, env=None, workers=8, timeout=1800, **kw):
